@@ -223,7 +223,8 @@ class Scheduler:
         """releases every parked thread so that the OS threads terminate"""
         self.aborting = True
         for t in self.threads.values():
-            if not t.finished:
+            # also threads marked finished from outside (a terminated worker process) are still parked
+            if not t.finished or t.os_thread.is_alive():
                 t.sem.release()
         for t in self.threads.values():
             t.os_thread.join(2)
